@@ -787,8 +787,8 @@ V(id='c34-extension-exit-wrong-side', prop='C34', file='mpmath/calculus/odes.py'
   old="            if x <= xb:\n                return series_data[-1]", new="            if x >= xb:\n                return series_data[-1]",
   expect='fire:O-R4:get_series')
 V(id='c34-radius-last-component', prop='C34', file='mpmath/calculus/odes.py',
-  old="            radius = min(radius, ctx.nthroot(tol/abs(ts[-1]), n))\n    radius /= 2  # XXX",
-  new="            radius = ctx.nthroot(tol/abs(ts[-1]), n)\n    radius = min(radius, ctx.one) / 2  # XXX",
+  old="                radius = min(radius, ctx.nthroot(tol/abs(ts[k]), k))\n    radius /= 2  # XXX",
+  new="                radius = ctx.nthroot(tol/abs(ts[k]), k)\n    radius = min(radius, ctx.one) / 2  # XXX",
   expect='fire:O-R5:ode_taylor')
 V(id='c34-radius-enlarged', prop='C34', file='mpmath/calculus/odes.py',
   old="    radius /= 2  # XXX", new="    radius *= 2  # XXX", expect='fire:O-R5:ode_taylor')
@@ -1852,3 +1852,11 @@ V(id='c24-gamma3-two-limit-reentry', prop='C24', file='mpmath/functions/expinteg
 V(id='c24-expint-exit-benign-form', prop='C24', file='mpmath/libmp/libhyper.py',
   old="                if m > 0 and abs(u) >= abs(t):", new="                if m > 0 and not abs(t) > abs(u):",
   expect='silent')
+
+# ---- C34 O-R8 / O-R9 ----
+V(id='c34-radius-last-coefficient-only', prop='C34', file='mpmath/calculus/odes.py',
+  old="        for k in (n, n-1):", new="        for k in (n,):", expect='fire:O-R8:ode_taylor')
+V(id='c34-difference-scheme-too-few-bits', prop='C34', file='mpmath/calculus/odes.py',
+  old="        ctx.prec = max(orig, tol_prec)*(1+n)", new="        ctx.prec = orig*(1+n)", expect='fire:O-R9:ode_taylor')
+V(id='c34-difference-scheme-benign-more-bits', prop='C34', file='mpmath/calculus/odes.py',
+  old="        ctx.prec = max(orig, tol_prec)*(1+n)", new="        ctx.prec = (orig + tol_prec)*(2+n)", expect='silent')
